@@ -190,6 +190,35 @@ class Endpoint(object):
             self.hdl.start()
         return self.hdl
 
+    def connect_by_name(self, sock, name, port, resolved_ip):
+        ''' The user asks the agent to connect to a host *name* (D-Bus method Agent.connect): the name resolves to
+        ``resolved_ip`` and the TCP connection that results is ``sock``. '''
+        import socket as real_socket
+
+        class Facade(object):
+            def socket(self_inner, *_a, **_k):
+                sock.connect = lambda _addr: None
+                return sock
+
+            def getaddrinfo(self_inner, text, *args, **kwargs):
+                if text == name:
+                    return [(real_socket.AF_INET, real_socket.SOCK_STREAM, 6, '', (resolved_ip, 0))]
+                return real_socket.getaddrinfo(text, *args, **kwargs)
+
+            def __getattr__(self_inner, attr):
+                return getattr(real_socket, attr)
+        self.sock = sock
+        saved = tcpcl.agent.socket
+        tcpcl.agent.socket = Facade()
+        try:
+            path = dbuscall(self.ctx, self.agent, 'connect', name, dbus.UInt16(port))
+        finally:
+            tcpcl.agent.socket = saved
+        if isinstance(path, CallError):
+            raise path.exc
+        self.hdl = self.agent.handler_for_path(path)
+        return self.hdl
+
     def call(self, member, *args):
         return dbuscall(self.ctx, self.hdl, member, *args)
 
@@ -228,7 +257,10 @@ class World(object):
                 self.tx_pipe = self.link.ab
             else:
                 self.ends['A'] = Endpoint('A', cfg_a)
-                self.ends['A'].attach(self.link.sock_a, False, (peer_name or addr_b[0], addr_b[1]))
+                if peer_name:
+                    self.ends['A'].connect_by_name(self.link.sock_a, peer_name, addr_b[1], addr_b[0])
+                else:
+                    self.ends['A'].attach(self.link.sock_a, False, (addr_b[0], addr_b[1]))
                 self.peer_sock = self.link.sock_b
                 self.real = self.ends['A']
                 self.rx_pipe = self.link.ab
@@ -237,7 +269,10 @@ class World(object):
             self.ends['A'] = Endpoint('A', cfg_a)
             self.ends['B'] = Endpoint('B', cfg_b)
             self.ends['B'].attach(self.link.sock_b, True, addr_a)
-            self.ends['A'].attach(self.link.sock_a, False, (peer_name or addr_b[0], addr_b[1]))
+            if peer_name:
+                self.ends['A'].connect_by_name(self.link.sock_a, peer_name, addr_b[1], addr_b[0])
+            else:
+                self.ends['A'].attach(self.link.sock_a, False, (addr_b[0], addr_b[1]))
 
     # -- scheduler decisions ---------------------------------------------------
     def iterate(self, side):
